@@ -317,3 +317,16 @@ def bool_true_labels(taken):
     if "0" not in t and t:
         return True
     return None
+
+
+def closure_captures(prog, cl):
+    """for a closure Fn: list (per capture index) of lists of Origins in the function that builds the closure"""
+    from .facts import norm_path
+    host = prog.fns.get(cl.parent) if cl.parent else None
+    if host is None:
+        return []
+    for bb, i, s in host.all_stmts():
+        rv = s.get("rv")
+        if rv and rv["k"] == "agg" and rv.get("closure") and norm_path(rv["closure"]) == cl.path:
+            return [origins(host, o) for o in rv["ops"]]
+    return []
